@@ -1,5 +1,5 @@
 From AQ Require Import lib.Base model.Codec model.Varint model.RangeSet model.AckFrame model.Header.
-From AQ Require Import model.TlsCodec model.TParams proofs.TParamsProofs.
+From AQ Require Import model.TlsCodec model.TParams proofs.TParamsProofs proofs.TParamsRoundtrip.
 From AQ Require Import proofs.CodecProofs proofs.VarintProofs proofs.AckFrameProofs proofs.HeaderProofs proofs.TlsCodecProofs.
 
 (* ---- variable-length integers (RFC 9000 section 16) ---- *)
@@ -188,3 +188,34 @@ Theorem tparams_pull_total : forall bs, bytes_ok bs ->
   match pull_quic_transport_parameters bs with Ok _ => True | Err k => k = E_READ \/ k = E_VALUE end.
 Proof. exact TParamsProofs.tparams_pull_total. Qed.
 Print Assumptions tparams_pull_total.
+
+(* ---- transport parameters: round trip of the whole QuicTransportParameters object ---- *)
+Theorem tparams_roundtrip : forall r, qtp_wf r = true ->
+  exists bytes, flatten (push_qtp r) = Ok bytes /\ pull_qtp bytes = Ok r.
+Proof. exact TParamsRoundtrip.tparams_roundtrip. Qed.
+Print Assumptions tparams_roundtrip.
+
+Theorem tparams_roundtrip_buffer : forall r cap, qtp_wf r = true ->
+  exists bytes, flatten (push_qtp r) = Ok bytes /\
+    (Zlen bytes <= cap -> w_chunks cap [] (push_qtp r) = Ok bytes) /\ pull_qtp bytes = Ok r.
+Proof. exact TParamsRoundtrip.tparams_roundtrip_buffer. Qed.
+Print Assumptions tparams_roundtrip_buffer.
+
+Theorem tparams_roundtrip_fields : forall fs, fields_wf PARAMS fs = true ->
+  exists bytes, flatten (push_quic_transport_parameters (entries PARAMS fs)) = Ok bytes /\
+                pull_quic_transport_parameters bytes = Ok (entries PARAMS fs).
+Proof. exact TParamsRoundtrip.tparams_roundtrip_fields. Qed.
+Print Assumptions tparams_roundtrip_fields.
+
+Theorem tparams_roundtrip_zero_ip_refuted :
+  addr_typed 4 (Some ([0; 0; 0; 0], 443)) = true /\
+  exists bytes r', flatten (push_qtp qtp_zero_ip) = Ok bytes /\ pull_qtp bytes = Ok r' /\ r' <> qtp_zero_ip /\
+    q_preferred_address r' = Some (None, None, [1; 2; 3; 4], repeat 5 16).
+Proof. exact TParamsRoundtrip.tparams_roundtrip_zero_ip_refuted. Qed.
+Print Assumptions tparams_roundtrip_zero_ip_refuted.
+
+Theorem tparams_roundtrip_none_flag_refuted :
+  exists bytes r', flatten (push_qtp qtp_none_flag) = Ok bytes /\ pull_qtp bytes = Ok r' /\ r' <> qtp_none_flag /\
+    q_disable_active_migration r' = Some false.
+Proof. exact TParamsRoundtrip.tparams_roundtrip_none_flag_refuted. Qed.
+Print Assumptions tparams_roundtrip_none_flag_refuted.
